@@ -51,7 +51,7 @@ func c03Alphabet() []Req {
 		mkReq(opStatFile, "/f.bin"), mkReq(opStatFile, "/nope"), mkReq(opStatFile, "/d2"),
 		mkReq(opOpenFile, "/f.bin"), mkReq(opOpenFile, "/nope"), mkReq(opOpenFile, "/d2/b.bin"), mkReq(opOpenFile, "/CLOSEFILE"),
 		rdReq(0, 100), rdReq(100, 50), rdReq(4990, 100), rdReq(6000, 10), rdReq(17, 0), rdReq(1<<63, 10),
-		rdcReq(10, 20), rdcReq(4990, 100), cdReq(0, 1),
+		rdcReq(10, 20), rdcReq(4990, 100), cdReq(0, 1), cdReq(1826092, 1),
 		mkReq(opCreateFile, "/w/new.bin"), mkReq(opCreateFile, "/w/old.txt"), mkReq(opCreateFile, "/nodir/x"),
 		wrReq([]byte{1, 2, 3}), wrReq(nil), wrReq(big),
 		mkReq(opDeleteFile, "/w/old.txt"), mkReq(opMkdir, "/w/sub"), mkReq(opRmdir, "/w/sub"),
@@ -78,7 +78,7 @@ func TestC03(t *testing.T) {
 	if r.Thorough() {
 		depth = 4
 	}
-	r.Rule("all request sequences of length <= depth over a 37-request alphabet covering the 15 opcodes in success and failure form plus unknown opcodes, x writing enabled/disabled; every truncation point of every request as last request after every 1-request prefix; whole/1-byte/7-byte delivery; the same sequences pipelined in one piece (stream = concatenation of the one-by-one answers); an upload whose storing fails (ENOSPC, EIO, partial write) at every write of a 70000-byte payload with three transfer buffer configurations; a case is distinct by (allow-write, executed request prefix, delivery)")
+	r.Rule("all request sequences of length <= depth over a 38-request alphabet covering the 15 opcodes in success and failure form plus unknown opcodes, x writing enabled/disabled; every truncation point of every request as last request after every 1-request prefix; whole/1-byte/7-byte delivery; the same sequences pipelined in one piece (stream = concatenation of the one-by-one answers); an upload whose storing fails (ENOSPC, EIO, partial write) at every write of a 70000-byte payload with three transfer buffer configurations; a case is distinct by (allow-write, executed request prefix, delivery)")
 	r.Extra("depth", depth)
 	r.Extra("alphabet", len(alpha))
 
@@ -138,7 +138,7 @@ func TestC03(t *testing.T) {
 		}
 		nrun++
 		// the same requests pipelined (one piece, then FIN): the stream must be the concatenation of the answers above
-		if d.plain() && len(seq) >= 2 && (len(seq) == 2 || r.Thorough() || nrun%3 == 0) {
+		if d.plain() && len(seq) >= 2 && (len(seq) == 2 || (r.Thorough() && len(seq) == 3) || nrun%3 == 0) {
 			if allow && mut {
 				cw.resetW()
 			}
@@ -151,13 +151,14 @@ func TestC03(t *testing.T) {
 				r.Transition(int64(len(seq)))
 				r.ExtraAdd("pipelined_sessions", 1)
 				if len(got) == len(want) {
-					// access times legitimately move between two runs: blank them in stat and V2 entry answers
+					// access and inode-change times legitimately move between two runs (the harness re-creates and re-stamps the
+					// writable subtree in between): blank them in stat and V2 entry answers
 					got = append([]byte{}, got...)
 					want = append([]byte{}, want...)
 					pos := 0
 					for i, raw := range res.Raw {
 						if (seq[i].Op == opStatFile && len(raw) == szStat) || (seq[i].Op == opReadDirEntryV2 && len(raw) >= szDirEntryV2) {
-							for k := pos + 24; k < pos+32; k++ {
+							for k := pos + 16; k < pos+32; k++ {
 								got[k], want[k] = 0, 0
 							}
 						}
@@ -271,58 +272,7 @@ func TestC03(t *testing.T) {
 	// (5) an upload whose storing fails half-way (disk full, I/O error, partial write) at every write of the
 	// payload: the server must still consume exactly the announced payload, answer the failure code (or end the
 	// connection) and stay in step for the following requests
-	{
-		big := patBytes(5, 0, 70000)
-		probe := []Req{mkReq(opOpenFile, "/f.bin"), rdReq(3, 2000), rdcReq(0, 2048)}
-		mkM := func() *Model { return newModel(cw.w.Root, true) }
-		fcase := 0
-		for _, bs := range []int{0, 1000, -1} {
-			sc := c13Scenario{name: sprintf("store-failure(buffer %d)", bs), allow: true, buf: bs, probe: probe, reqs: []Req{
-				mkReq(opCreateFile, "/w/new.bin"), wrReq(big), mkReq(opStatFile, "/f.bin"), wrReq([]byte("abc")), mkReq(opStatFile, "/nope"),
-				mkReq(opOpenDir, "/d2"), noargReq(opReadDirEntry), mkReq(opDeleteFile, "/w/new.bin"), mkReq(opStatFile, "/d2")}}
-			base := c13Run(t, cw.w.Root, sc, mkM, faultPlan{}, cw.resetW)
-			r.Transition(int64(len(base.steps)))
-			if base.why != "" {
-				if r.Shard == 0 {
-					r.Violation("C03:store-failure:fault-free:"+base.sig, sc.name+" without any fault: "+base.why, map[string]any{"requests": sc.reqs, "steps": base.steps})
-				}
-				continue
-			}
-			nw := 0
-			for i, ev := range base.events {
-				if ev.Op != "Write" && ev.Op != "WriteAt" && ev.Op != "WriteString" {
-					continue
-				}
-				nw++
-				if bs == 1000 && nw > 6 && nw%7 != 0 && !r.Thorough() {
-					continue // 70 writes of 1000 bytes: the first six and every seventh
-				}
-				for _, f := range []FsFault{{Err: syscall.ENOSPC}, {Err: syscall.EIO}, {Err: syscall.ENOSPC, Short: 1}, {Err: syscall.ENOSPC, Short: (ev.N + 1) / 2}} {
-					if f.Short >= ev.N && f.Short > 0 {
-						continue
-					}
-					fcase++
-					if !r.Mine(fcase) {
-						continue
-					}
-					p := faultPlan{At: map[int]FsFault{i: f}, Desc: []string{sprintf("%v(short=%d)@%d:%s", f.Err, f.Short, i, ev.Op)}}
-					res := c13Run(t, cw.w.Root, sc, mkM, p, cw.resetW)
-					r.Transition(int64(len(res.steps)) + 1)
-					r.Eval(1)
-					key := sprintf("%s|%v", sc.name, p.Desc)
-					r.State(key)
-					r.Nontrivial(key)
-					for _, st := range res.steps {
-						r.Outcome("store-failure:" + st.Class)
-					}
-					if res.why != "" {
-						r.Violation("C03:store-failure:"+res.sig, sprintf("%s, %v: %s", sc.name, p.Desc, res.why), map[string]any{"requests": sc.reqs, "plan": p, "steps": res.steps})
-					}
-				}
-			}
-		}
-		cw.resetW()
-	}
+	storeFailureFamily(t, r, cw.w.Root, cw.resetW, "C03")
 	// (4) deep explicit-state search: histories are merged by the reference model's abstract state
 	// (open directory + remaining entries, open read file, open write file, digest of the writable subtree);
 	// a successor is produced by replaying the shortest history on a fresh server plus one request.
@@ -333,19 +283,29 @@ func TestC03(t *testing.T) {
 	r.Extra("deep_depth", sprintf("%d", deep))
 	for _, allow := range []bool{false, true} {
 		seen := map[string]bool{}
-		type node struct{ hist []Req }
+		// a history is kept as indexes into the alphabet (one byte per request): frontiers hold hundreds of thousands
+		type node struct{ hist []uint8 }
+		expand := func(h []uint8) []Req {
+			out := make([]Req, len(h))
+			for i, x := range h {
+				out[i] = alpha[x]
+			}
+			return out
+		}
 		var frontier []node
 		for i, a := range alpha {
 			if i%r.NShards == r.Shard {
-				frontier = append(frontier, node{[]Req{a}})
+				_ = a
+				frontier = append(frontier, node{[]uint8{uint8(i)}})
 			}
 		}
 		for d := 1; d <= deep && len(frontier) > 0; d++ {
 			var next []node
-			for _, nd := range frontier {
+			for _, ndi := range frontier {
 				if r.TimeUp() {
 					break
 				}
+				nd := struct{ hist []Req }{expand(ndi.hist)}
 				mut := false
 				for _, q := range nd.hist {
 					if isMutating(q) {
@@ -373,8 +333,8 @@ func TestC03(t *testing.T) {
 				seen[key] = true
 				r.ExtraAdd("deep_states", 1)
 				if d < deep {
-					for _, a := range alpha {
-						next = append(next, node{append(append([]Req{}, nd.hist...), a)})
+					for ai := range alpha {
+						next = append(next, node{append(append([]uint8{}, ndi.hist...), uint8(ai))})
 					}
 				}
 			}
@@ -382,4 +342,60 @@ func TestC03(t *testing.T) {
 		}
 	}
 	r.Assume("vnet models TCP as two reliable byte queues; real-TCP conformance is checked by replaying sessions against the real binary (C03 bin replay)")
+}
+
+// storeFailureFamily: CreateFile + a 70000-byte WriteFile whose storing fails (ENOSPC, EIO, partial write) at every
+// Write of the payload, with three transfer buffer configurations, followed by more requests. The world needs
+// /w (writable, reset by resetW), /f.bin and /d2.
+func storeFailureFamily(t *testing.T, r *Reporter, root string, resetW func(), prop string) {
+	big := patBytes(5, 0, 70000)
+	probe := []Req{mkReq(opOpenFile, "/f.bin"), rdReq(3, 2000), rdcReq(0, 2048)}
+	mkM := func() *Model { return newModel(root, true) }
+	fcase := 0
+	for _, bs := range []int{0, 1000, -1} {
+		sc := c13Scenario{name: sprintf("store-failure(buffer %d)", bs), allow: true, buf: bs, probe: probe, reqs: []Req{
+			mkReq(opCreateFile, "/w/new.bin"), wrReq(big), mkReq(opStatFile, "/f.bin"), wrReq([]byte("abc")), mkReq(opStatFile, "/nope"),
+			mkReq(opOpenDir, "/d2"), noargReq(opReadDirEntry), mkReq(opDeleteFile, "/w/new.bin"), mkReq(opStatFile, "/d2")}}
+		base := c13Run(t, root, sc, mkM, faultPlan{}, resetW)
+		r.Transition(int64(len(base.steps)))
+		if base.why != "" {
+			if r.Shard == 0 {
+				r.Violation(prop+":store-failure:fault-free:"+base.sig, sc.name+" without any fault: "+base.why, map[string]any{"requests": sc.reqs, "steps": base.steps})
+			}
+			continue
+		}
+		nw := 0
+		for i, ev := range base.events {
+			if ev.Op != "Write" && ev.Op != "WriteAt" && ev.Op != "WriteString" {
+				continue
+			}
+			nw++
+			if bs == 1000 && nw > 6 && nw%7 != 0 && !r.Thorough() {
+				continue // 70 writes of 1000 bytes: the first six and every seventh
+			}
+			for _, f := range []FsFault{{Err: syscall.ENOSPC}, {Err: syscall.EIO}, {Err: syscall.ENOSPC, Short: 1}, {Err: syscall.ENOSPC, Short: (ev.N + 1) / 2}} {
+				if f.Short >= ev.N && f.Short > 0 {
+					continue
+				}
+				fcase++
+				if !r.Mine(fcase) {
+					continue
+				}
+				p := faultPlan{At: map[int]FsFault{i: f}, Desc: []string{sprintf("%v(short=%d)@%d:%s", f.Err, f.Short, i, ev.Op)}}
+				res := c13Run(t, root, sc, mkM, p, resetW)
+				r.Transition(int64(len(res.steps)) + 1)
+				r.Eval(1)
+				key := sprintf("%s|%v", sc.name, p.Desc)
+				r.State(key)
+				r.Nontrivial(key)
+				for _, st := range res.steps {
+					r.Outcome("store-failure:" + st.Class)
+				}
+				if res.why != "" {
+					r.Violation(prop+":store-failure:"+res.sig, sprintf("%s, %v: %s", sc.name, p.Desc, res.why), map[string]any{"requests": sc.reqs, "plan": p, "steps": res.steps})
+				}
+			}
+		}
+	}
+	resetW()
 }
